@@ -34,12 +34,12 @@ MANIFEST_ENTRY = {
 
 
 def plan(tier, seed, avoid):
-    n, per = (640, 20) if tier == "quick" else (20000, 250)
+    n, per = (480, 15) if tier == "quick" else (20000, 250)
     return [{"start": s, "count": per} for s in range(0, n, per)]
 
 
 def floors(tier):
-    return {"evaluations": 1000, "distinct_nontrivial": 600, "observed.compared_programs": 400}
+    return {"evaluations": 900, "distinct_nontrivial": 400, "observed.compared_programs": 300}
 
 
 def gcc_reference(src, argvecs, workdir, tag):
@@ -178,4 +178,45 @@ def run_shard(spec):
             "violations": viol, "samples": samples}
 
 
-PROBES = {}
+# ---- regression probes (expected values are what gcc prints) -----------------
+
+def _probe(body, expected):
+    def run():
+        from ppci import api
+        from vlib.refinterp import Interp
+        src = "void report(long);\nlong entry(long a0, long a1, long a2) {\n%s\n  return 0;\n}\n" % body
+        try:
+            m = api.c_to_ir(io.StringIO(src), "x86_64")
+        except Exception as e:
+            return "c_to_ir raised %s: %s" % (type(e).__name__, str(e)[:100])
+        res = Interp(m, ptr_size=8).run("entry", [0, 1, 2])
+        if res.status != "ok":
+            return "IR run %s: %s" % (res.status, res.reason)
+        got = [wrap(t[1][0]) for t in res.trace]
+        if got != expected:
+            return "reports %r, a conforming compiler gives %r" % (got, expected)
+        return None
+    return run
+
+
+PROBES = {
+    "c-comparison-no-promotion": _probe(
+        "  signed char a = -1; unsigned char b = 255; report(a == b); report(a < b);", [0, 1]),
+    "c-unary-no-promotion": _probe(
+        "  unsigned short us = 1; report((-us) < 0); report((~us) < 0); unsigned char uc = 200; report(-uc); report(~uc);",
+        [1, 1, -200, -201]),
+    "c-shift-uses-common-type": _probe(
+        "  unsigned int u = 0x80000001u; long sh = 1; report((long)(u << sh)); report((long)((u << sh) >> sh));", [2, 1]),
+    "c-common-type-longlong-vs-ulong": _probe(
+        "  long long ll = -1; unsigned long ul = 1; report(ll < ul); report((long)((ll / ul) > 0));", [0, 1]),
+    "c-condition-coerced-to-int": _probe(
+        "  double d = 0.5; long big = 0x100000000l; if (d) report(1); else report(0); report(d ? 10 : 20);"
+        " report(big ? 10 : 20); report(!d);", [1, 10, 10, 0]),
+    "c-compound-div-mod-shr-in-lhs-type": _probe(
+        "  unsigned char uc = 200; uc /= -3; report(uc); unsigned int ui = 7; ui /= -2l; report(ui);"
+        " int i = 10; i /= 0.3; report(i); signed char sc = -100; sc >>= 2; report(sc);", [190, 4294967293, 33, -25]),
+    "c-ternary-arms-not-converted": _probe(
+        "  signed char sc = -25; unsigned char uc = 255; report((short)7 | (a0 ? uc : sc)); report(sizeof(a0 ? uc : sc));",
+        [-25, 4]),
+    "equality-parsed-at-relational-precedence": _probe("  report(1 < 2 == 2 < 3); report(3 > 2 != 0 < 1);", [1, 0]),
+}
